@@ -23,10 +23,11 @@ type State struct {
 	Ghost   map[string]*Term
 	HeapTop *Term
 	Epoch   int // bumped by every wholesale heap havoc: untouched cells then read a per-epoch constant
+	EpochG  int // the same for package variables, which only "modifies everything" havocs
 }
 
 func (s *State) clone() *State {
-	n := &State{Guard: s.Guard, HeapTop: s.HeapTop, Epoch: s.Epoch,
+	n := &State{Guard: s.Guard, HeapTop: s.HeapTop, Epoch: s.Epoch, EpochG: s.EpochG,
 		Locals: make(map[*Cell]Value, len(s.Locals)),
 		Heap:   make(map[string]*Term, len(s.Heap)),
 		Ghost:  make(map[string]*Term, len(s.Ghost))}
@@ -147,12 +148,16 @@ func (p *Proof) heapCell(st *State, key, sortS string) *Term {
 	if t, ok := st.Heap[key]; ok {
 		return t
 	}
-	if st.Epoch > 0 {
+	ep := st.Epoch
+	if strings.HasPrefix(key, "G:") {
+		ep = st.EpochG
+	}
+	if ep > 0 {
 		// the whole heap was havocked since function entry and this cell was not touched since
 		if _, ok := p.initHeap[key]; !ok {
 			p.initHeap[key] = B.Const("H."+key, sortS)
 		}
-		t := B.Const(fmt.Sprintf("E%d.%s", st.Epoch, key), sortS)
+		t := B.Const(fmt.Sprintf("E%d.%s", ep, key), sortS)
 		st.Heap[key] = t
 		return t
 	}
@@ -614,6 +619,13 @@ func (p *Proof) mergeStates(sts []*State) *State {
 		}
 		n.HeapTop = Ite(c, s.HeapTop, n.HeapTop)
 		n.Guard = Or(s.Guard, n.Guard)
+		// a cell never read so far is arbitrary after the merge if it was havocked on either side
+		if s.Epoch > n.Epoch {
+			n.Epoch = s.Epoch
+		}
+		if s.EpochG > n.EpochG {
+			n.EpochG = s.EpochG
+		}
 	}
 	return res
 }
@@ -1253,15 +1265,24 @@ func (fr *Frame) loopHead(li *loopInfo, st *State) *State {
 	}
 	if eff.allHeap {
 		for key, old := range n.Heap {
+			if strings.HasPrefix(key, "G:") && !eff.allGlobals && !eff.heap[key] {
+				continue // package variables are written only by explicit stores or "modifies everything"
+			}
 			n.Heap[key] = B.Fresh("lpH."+key, old.Sort)
 		}
 		for key, init := range p.initHeap {
+			if strings.HasPrefix(key, "G:") && !eff.allGlobals && !eff.heap[key] {
+				continue
+			}
 			if _, ok := n.Heap[key]; !ok {
 				n.Heap[key] = B.Fresh("lpH."+key, init.Sort)
 			}
 		}
 		li.allHeap = true
 		p.newEpoch(n)
+		if eff.allGlobals {
+			n.EpochG = n.Epoch
+		}
 	}
 	for g := range eff.ghost {
 		if old, ok := n.Ghost[g]; ok {
